@@ -3,8 +3,15 @@
    on every run); combinatorial model: Render/MC.v, Render/Lattice.v; numeric model and the
    real-number lift: Render/Interp.v, Render/LatticeR.v; algebra of balances: Render/Balance.v. *)
 From Coq Require Import List ZArith NArith Reals Bool.
-From Sdfx Require Import Num.Ops Num.RInst Geo.Vec Generated.MarchTables
-  Render.Balance Render.MC Render.Lattice Render.Interp Render.LatticeR.
+From Sdfx Require Import Num.Ops.
+From Sdfx Require Import Num.RInst.
+From Sdfx Require Import Geo.Vec.
+From Sdfx Require Import Generated.MarchTables.
+From Sdfx Require Import Render.Balance.
+From Sdfx Require Import Render.MC.
+From Sdfx Require Import Render.Lattice.
+From Sdfx Require Import Render.Interp.
+From Sdfx Require Import Render.LatticeR.
 Import ListNotations.
 
 (* ---------------------------------------------------------------- the tables (domain: all 256 rows) *)
